@@ -14,13 +14,20 @@
    isolated_relation says that a relation defined by one clause only, absent from the
    incoming store, whose body reads completed relations, holds after the stratum's fixpoint
    exactly that clause's body solutions over the completed lower strata - for every program,
-   store, rule order and fuel. Its hypotheses are what "generated names are pairwise distinct
-   and no user predicate ends in __tmp" buys; fresh_names_distinct_partial proves the
-   distinctness for one head symbol, fresh_names_refuted / name_collision_refuted (finding
-   F2b) show it fails across head symbols, rewrite_F2_refuted shows the pre-fix counter
-   violated it for two rules of one head, rewrite_F2c_refuted shows the pre-fix single-atom
-   test fed non-solutions into the groups. *)
-From Coq Require Import List ZArith Bool.
+   store, rule order and fuel. rewrite_isolated discharges its uniqueness hypothesis for the
+   rewritten stratum: when the generated names are pairwise distinct and no user predicate
+   ends in __tmp, the internal relation of the split rule at ANY position holds exactly that
+   rule's own body solutions, and the transformed rule reads exactly that relation
+   (rewrite_heads: the heads of the rewritten plain clauses are the user's plus the generated
+   names, each once). fresh_names_collide_iff says exactly when two generated names coincide
+   (one symbol is the other followed by digits w and the counters' decimals differ by the
+   prefix w); fresh_names_distinct / fresh_names_stratum_distinct: they never do when no
+   head symbol ends in a digit (rewrite_isolated_nodigit); fresh_names_distinct_same_symbol:
+   nor for one symbol; fresh_names_refuted / name_collision_refuted (finding F2b) show that
+   they do otherwise, rewrite_F2_refuted shows the pre-fix counter gave two rules of one head
+   the same name, rewrite_F2c_refuted shows the pre-fix single-atom test fed non-solutions
+   into the groups. *)
+From Coq Require Import List ZArith Bool Permutation.
 From MV Require Import Datalog.Syntax Datalog.Interp Datalog.Solve Datalog.SolveProofs Datalog.SemiNaive
      Datalog.SemiNaiveProofs Datalog.Lfp Datalog.Rewrite Datalog.Transform
      Datalog.TransformProofs Datalog.RewriteProofs.
@@ -114,42 +121,224 @@ Proof.
 Qed.
 Print Assumptions isolated_relation.
 
-(* rewrite_isolated_partial = isolated_relation read on R := plain_clauses (rewrite ord rs)
-   and c := the internal clause of a split rule (rewrite_shape). Full statement of the plan:
-     NoDup (fresh_ids true true 0 rs) -> (forall r, In r rs -> is_internal (r_head r) = false) ->
-     (forall f, In f St0 -> is_internal (fst f) = false) -> ... ->
-     In f Res <-> f is a body solution of rule i      for the internal relation of rule i.
-   Not finished: deriving the uniqueness hypothesis (the 4th above) from NoDup of the
-   generated names needs the position of every generated name in the rewritten list; the
-   theorem below takes uniqueness of the internal name as its hypothesis instead. *)
-Theorem rewrite_isolated_partial :
-  forall (ord : list Z -> list Z) (rs : list rule) (drules : list (clause * nat)) (St0 : list fact)
-         (r : rule) (m : Z) (fuel : nat) (Res : list fact),
+(* the heads of the plain clauses of a rewritten stratum are, as a multiset, the heads of the
+   user's plain clauses plus the generated names (one clause per generation); the rules that
+   keep a do-transform keep their heads, in order *)
+Theorem rewrite_heads : forall (ord : list Z -> list Z) (rs : list rule),
+  Permutation (heads (plain_clauses (rewrite ord rs)))
+              (heads (plain_clauses rs) ++ fresh_ids true true 0 rs) /\
+  map r_head (filter (fun r => negb (is_plain r)) (rewrite ord rs)) =
+  map r_head (filter (fun r => negb (is_plain r)) rs).
+Proof.
+  intros ord rs. split.
+  - exact (rewrite_go_heads_perm true ord rs 0).
+  - exact (rewrite_go_do_heads true true ord rs 0).
+Qed.
+Print Assumptions rewrite_heads.
+
+(* THE ISOLATION THEOREM. A stratum rs = pre ++ r :: post whose rule r (at any position) is
+   split: r has a do-transform d and a body that is not a single simple atom. k = the value
+   of the name generator's counter at r = 1 + the number of rules split before it. If
+     - the names generated for the stratum are pairwise distinct,
+     - no rule head of the stratum is an internal name (ends in __tmp),
+     - no fact of the incoming store has an internal name,
+     - the atoms of r's body name no internal predicate and no predicate that a plain rule
+       of the stratum defines (aggregation reads completed relations),
+   and the stratum satisfies the two side conditions of the C01 fixpoint theorem, then
+     (1) the internal clause  tmp_k(cols) :- body(r)  is in the rewritten stratum,
+     (2) so is the transformed rule  head(r) :- tmp_k(cols) |> d,
+     (3) no other plain clause of the rewritten stratum has that head predicate, and
+     (4) after the stratum's fixpoint the facts of tmp_k are EXACTLY the instances of cols
+         under the solutions of r's own body over the incoming store.
+   For every column order, rule list, position, store, delta-rule list and fuel. *)
+Theorem rewrite_isolated :
+  forall (ord : list Z -> list Z) (pre : list rule) (r : rule) (post : list rule) (d : dotrans)
+         (drules : list (clause * nat)) (St0 : list fact) (fuel : nat) (Res : list fact),
+  let rs := pre ++ r :: post in
   let R := plain_clauses (rewrite ord rs) in
-  let c := mkClause (mkAtom (fresh_id (r_head r) (m + 1))
+  let k := Z.of_nat (length (fresh_ids true true 0 pre)) + 1 in
+  let c := mkClause (mkAtom (fresh_id (r_head r) k)
                             (map TVar (ord (body_cols (r_wild r) (cbody (r_clause r))))))
                     (cbody (r_clause r)) [] in
-  neg_ok R -> drules_ok R drules -> In c R ->
-  (forall c', In c' R -> apred (chead c') = fresh_id (r_head r) (m + 1) -> c' = c) ->
-  (forall f, In f St0 -> fst f <> fresh_id (r_head r) (m + 1)) ->
-  (forall q, In q (pos_preds (cbody (r_clause r))) -> ~ In q (heads R)) ->
+  r_do r = Some d -> single_atom_premise true (r_wild r) (cbody (r_clause r)) = false ->
+  NoDup (fresh_ids true true 0 rs) ->
+  (forall r', In r' rs -> 1 <= r_head r' /\ is_internal (r_head r') = false) ->
+  (forall f, In f St0 -> is_internal (fst f) = false) ->
+  (forall q, In q (pos_preds (cbody (r_clause r))) ->
+             is_internal q = false /\ (forall r', In r' rs -> r_do r' = None -> r_head r' <> q)) ->
+  neg_ok R -> drules_ok R drules ->
   eval_stratum fuel R drules St0 = Ok Res ->
-  forall f, fst f = fresh_id (r_head r) (m + 1) ->
-    (In f Res <-> exists t, sat (inset St0) (fun _ => St0) 0 (cbody (r_clause r)) [] t /\ emit_head c t = Some f).
+  In c R /\
+  In (mkRule (mkClause (chead (r_clause r)) [PAtom (chead c)] []) (Some d) []) (rewrite ord rs) /\
+  (forall c', In c' R -> apred (chead c') = fresh_id (r_head r) k -> c' = c) /\
+  (forall f, fst f = fresh_id (r_head r) k ->
+     (In f Res <-> exists t, sat (inset St0) (fun _ => St0) 0 (cbody (r_clause r)) [] t /\
+                             emit_head c t = Some f)).
+Proof. exact rewrite_isolated_internal. Qed.
+Print Assumptions rewrite_isolated.
+
+(* the same under weaker hypotheses, usable for a later stratum whose incoming store already
+   holds internal relations of earlier strata: only the names generated for THIS stratum
+   must be avoided by user heads, stored facts and body atoms; for either setting of the
+   single-atom test *)
+Theorem rewrite_isolated_names :
+  forall (strict : bool) (ord : list Z -> list Z) (pre : list rule) (r : rule) (post : list rule)
+         (d : dotrans) (drules : list (clause * nat)) (St0 : list fact) (fuel : nat) (Res : list fact),
+  let rs := pre ++ r :: post in
+  let R := plain_clauses (rewrite_go true strict ord 0 rs) in
+  let k := Z.of_nat (length (fresh_ids true strict 0 pre)) + 1 in
+  let c := mkClause (mkAtom (fresh_id (r_head r) k)
+                            (map TVar (ord (body_cols (r_wild r) (cbody (r_clause r))))))
+                    (cbody (r_clause r)) [] in
+  r_do r = Some d -> single_atom_premise strict (r_wild r) (cbody (r_clause r)) = false ->
+  NoDup (fresh_ids true strict 0 rs) ->
+  (forall r', In r' rs -> r_do r' = None -> ~ In (r_head r') (fresh_ids true strict 0 rs)) ->
+  (forall f, In f St0 -> fst f <> fresh_id (r_head r) k) ->
+  (forall q, In q (pos_preds (cbody (r_clause r))) ->
+             ~ In q (fresh_ids true strict 0 rs) /\
+             (forall r', In r' rs -> r_do r' = None -> r_head r' <> q)) ->
+  neg_ok R -> drules_ok R drules ->
+  eval_stratum fuel R drules St0 = Ok Res ->
+  In c R /\
+  In (mkRule (mkClause (chead (r_clause r)) [PAtom (chead c)] []) (Some d) [])
+     (rewrite_go true strict ord 0 rs) /\
+  (forall c', In c' R -> apred (chead c') = fresh_id (r_head r) k -> c' = c) /\
+  (forall f, fst f = fresh_id (r_head r) k ->
+     (In f Res <-> exists t, sat (inset St0) (fun _ => St0) 0 (cbody (r_clause r)) [] t /\
+                             emit_head c t = Some f)).
+Proof. exact RewriteProofs.rewrite_isolated_names. Qed.
+Print Assumptions rewrite_isolated_names.
+
+(* rewrite_isolated with "pairwise distinct names" replaced by the syntactic condition that
+   guarantees it: no head symbol of the stratum ends in a decimal digit *)
+Theorem rewrite_isolated_nodigit :
+  forall (ord : list Z -> list Z) (pre : list rule) (r : rule) (post : list rule) (d : dotrans)
+         (drules : list (clause * nat)) (St0 : list fact) (fuel : nat) (Res : list fact),
+  let rs := pre ++ r :: post in
+  let R := plain_clauses (rewrite ord rs) in
+  let k := Z.of_nat (length (fresh_ids true true 0 pre)) + 1 in
+  let c := mkClause (mkAtom (fresh_id (r_head r) k)
+                            (map TVar (ord (body_cols (r_wild r) (cbody (r_clause r))))))
+                    (cbody (r_clause r)) [] in
+  r_do r = Some d -> single_atom_premise true (r_wild r) (cbody (r_clause r)) = false ->
+  (forall r', In r' rs -> ~ (48 <= r_head r' mod 256 <= 57)) ->
+  (forall r', In r' rs -> 1 <= r_head r' /\ is_internal (r_head r') = false) ->
+  (forall f, In f St0 -> is_internal (fst f) = false) ->
+  (forall q, In q (pos_preds (cbody (r_clause r))) ->
+             is_internal q = false /\ (forall r', In r' rs -> r_do r' = None -> r_head r' <> q)) ->
+  neg_ok R -> drules_ok R drules ->
+  eval_stratum fuel R drules St0 = Ok Res ->
+  In c R /\
+  In (mkRule (mkClause (chead (r_clause r)) [PAtom (chead c)] []) (Some d) []) (rewrite ord rs) /\
+  (forall c', In c' R -> apred (chead c') = fresh_id (r_head r) k -> c' = c) /\
+  (forall f, fst f = fresh_id (r_head r) k ->
+     (In f Res <-> exists t, sat (inset St0) (fun _ => St0) 0 (cbody (r_clause r)) [] t /\
+                             emit_head c t = Some f)).
+Proof. exact RewriteProofs.rewrite_isolated_nodigit. Qed.
+Print Assumptions rewrite_isolated_nodigit.
+
+(* non-vacuity: two aggregating rules of ONE head (p2 = 94258 over p0 = 94256 and over
+   p1 = 94257, the F2 witness program; "p2" ends in a digit, so this instance needs the
+   NoDup form). All hypotheses of rewrite_isolated hold for the second rule (pre = [first
+   rule], k = 2), and its internal relation p22__tmp is non-empty and holds the solutions of
+   the second body only: (1,5) from p1, not (1,1) from p0. *)
+Definition iso_rule (h e : Z) : rule :=
+  mkRule (mkClause (mkAtom h [TVar 1; TVar 3])
+                   [PAtom (mkAtom e [TVar 1; TVar 2]); PCmp Lt (TVar 2) (TConst (CNum 100))] [])
+         (Some (mkDo [1] [DReduce 3 RSum [TVar 2]])) [].
+Definition iso_rs : list rule := [iso_rule 94258 94256; iso_rule 94258 94257].
+Definition iso_store : list fact :=
+  [(94256, [CNum 1; CNum 1]); (94256, [CNum 1; CNum 3]);
+   (94257, [CNum 1; CNum 5]); (94257, [CNum 1; CNum 50]); (94257, [CNum 1; CNum 15])].
+
+Example rewrite_isolated_example :
+  let r := iso_rule 94258 94257 in
+  let R := plain_clauses (rewrite (fun l => l) iso_rs) in
+  iso_rs = [iso_rule 94258 94256] ++ r :: [] /\
+  Z.of_nat (length (fresh_ids true true 0 [iso_rule 94258 94256])) + 1 = 2 /\
+  single_atom_premise true (r_wild r) (cbody (r_clause r)) = false /\
+  NoDup (fresh_ids true true 0 iso_rs) /\
+  (forall r', In r' iso_rs -> 1 <= r_head r' /\ is_internal (r_head r') = false) /\
+  (forall f, In f iso_store -> is_internal (fst f) = false) /\
+  (forall q, In q (pos_preds (cbody (r_clause r))) ->
+             is_internal q = false /\ (forall r', In r' iso_rs -> r_do r' = None -> r_head r' <> q)) /\
+  neg_ok R /\ drules_ok R [] /\
+  exists Res, eval_stratum 20 R [] iso_store = Ok Res /\
+              In (fresh_id 94258 2, [CNum 1; CNum 5]) Res /\
+              ~ In (fresh_id 94258 2, [CNum 1; CNum 1]) Res.
 Proof.
-  intros ord rs drules St0 r m fuel Res R c Hn Hd Hc Hu Hf Hl He f Hp.
-  exact (isolated_relation_exact R drules St0 Hn Hd c Hc Hu Hf Hl fuel Res He f Hp).
+  cbv zeta. split; [reflexivity|]. split; [reflexivity|]. split; [reflexivity|].
+  split; [vm_compute; repeat constructor; simpl; intuition discriminate|].
+  split; [intros r' [<-|[<-|[]]]; vm_compute; split; [discriminate|reflexivity]|].
+  split; [intros f Hf; vm_compute in Hf;
+          repeat (destruct Hf as [<-|Hf]; [reflexivity|]); destruct Hf|].
+  split; [intros q [<-|[]]; split; [reflexivity|];
+          intros r' [<-|[<-|[]]] Hd; discriminate Hd|].
+  split; [intros c q Hc Hq; vm_compute in Hc;
+          repeat (destruct Hc as [<-|Hc]; [vm_compute in Hq; destruct Hq|]); destruct Hc|].
+  split.
+  - split; [intros c i []|]. intros c i a Hc Hn Hh. exfalso. vm_compute in Hc.
+    destruct Hc as [<-|[<-|[]]];
+      (destruct i as [|[|[|i]]]; vm_compute in Hn; try discriminate Hn;
+       injection Hn as <-; vm_compute in Hh; intuition discriminate).
+  - eexists. split; [vm_compute; reflexivity|]. split; [vm_compute; tauto|].
+    vm_compute. intros H. repeat (destruct H as [H|H]; [discriminate H|]). exact H.
 Qed.
-Print Assumptions rewrite_isolated_partial.
 
 (* ---- names *)
 
-(* names generated for one head symbol are pairwise distinct (full plan: pairwise distinct
-   over ALL head symbols of a unit - false, see fresh_names_refuted) *)
-Theorem fresh_names_distinct_partial : forall (sym n m : Z),
+(* EXACTLY when two generated names coincide: one head symbol is the other followed by a
+   string w of decimal digits, and the decimal of the other counter is w followed by the
+   decimal of this counter (h = push_bytes h' w reads "h is h' with the bytes w appended").
+   No hypothesis on symbols or counters. *)
+Theorem fresh_names_collide_iff : forall (h1 h2 n1 n2 : Z),
+  fresh_id h1 n1 = fresh_id h2 n2 <->
+  exists w, Forall (fun b => 48 <= b <= 57) w /\
+    ((h1 = push_bytes h2 w /\ dec_bytes n2 = w ++ dec_bytes n1) \/
+     (h2 = push_bytes h1 w /\ dec_bytes n1 = w ++ dec_bytes n2)).
+Proof. exact fresh_id_eq_iff. Qed.
+Print Assumptions fresh_names_collide_iff.
+
+(* consequently: over ALL head symbols that do not end in a decimal digit (last byte of the
+   name outside '0'..'9'), the generated name determines the symbol and the counter *)
+Theorem fresh_names_distinct : forall (h1 h2 n1 n2 : Z),
+  ~ (48 <= h1 mod 256 <= 57) -> ~ (48 <= h2 mod 256 <= 57) -> 0 <= n1 -> 0 <= n2 ->
+  fresh_id h1 n1 = fresh_id h2 n2 -> h1 = h2 /\ n1 = n2.
+Proof. exact fresh_id_inj_nodigit. Qed.
+Print Assumptions fresh_names_distinct.
+
+(* the last byte of the id is the last byte of the name *)
+Theorem id_last_byte : forall (s : list Z) (b : Z), 0 <= b < 256 ->
+  (48 <= id_of_name (s ++ [b]) mod 256 <= 57 <-> 48 <= b <= 57).
+Proof. exact id_of_name_ends. Qed.
+Print Assumptions id_last_byte.
+
+(* the names generated by one call of Rewrite for a stratum none of whose head symbols ends
+   in a digit are pairwise distinct, from any non-negative counter start *)
+Theorem fresh_names_stratum_distinct : forall (strict : bool) (rs : list rule) (n : Z),
+  0 <= n -> (forall r, In r rs -> ~ (48 <= r_head r mod 256 <= 57)) ->
+  NoDup (fresh_ids true strict n rs).
+Proof. exact fresh_ids_nodup. Qed.
+Print Assumptions fresh_names_stratum_distinct.
+
+(* "agg" and "ag" + 'h': symbols without a final digit, four generated names, all distinct *)
+Example fresh_names_stratum_distinct_example :
+  let rs := [iso_rule (id_of_name [97; 103; 103]) 94256; iso_rule (id_of_name [97; 103; 104]) 94256;
+             iso_rule (id_of_name [97; 103; 103]) 94257; iso_rule (id_of_name [97; 103; 104]) 94257] in
+  (forall r, In r rs -> ~ (48 <= r_head r mod 256 <= 57)) /\
+  length (fresh_ids true true 0 rs) = 4%nat.
+Proof.
+  cbv zeta. split; [|reflexivity].
+  intros r Hr. repeat (destruct Hr as [<-|Hr]; [vm_compute; intros [H1 H2]; apply H1; reflexivity|]). destruct Hr.
+Qed.
+
+(* names generated for ONE head symbol (any symbol, also one ending in a digit) with
+   different counters are distinct; over all head symbols this is false without the digit
+   condition, see fresh_names_refuted *)
+Theorem fresh_names_distinct_same_symbol : forall (sym n m : Z),
   1 <= sym -> 0 <= n -> 0 <= m -> n <> m -> fresh_id sym n <> fresh_id sym m.
 Proof. intros sym n m Hs Hn Hm Hne He. apply Hne. exact (fresh_id_counter_inj sym n m Hs Hn Hm He). Qed.
-Print Assumptions fresh_names_distinct_partial.
+Print Assumptions fresh_names_distinct_same_symbol.
 
 Example fresh_names_distinct_example : fresh_id (id_of_name [114]) 1 <> fresh_id (id_of_name [114]) 2.
 Proof. vm_compute. discriminate. Qed.
